@@ -196,6 +196,7 @@ impl DTree {
         }
         // `subtrees` are independent, so compose them
         let mut res = DTree::balanced(&subtrees);
+        res.init_vars();
         res.gen_cutset(&VarSet::new());
         res
     }
